@@ -172,6 +172,7 @@ func cmdCheck(args []string) {
 
 	var evs []evObl
 	canaryOK := map[string]bool{}
+	canaryUndecided := map[string]bool{}
 	var canaryOrder []*Finding
 	nObl, nDis := 0, 0
 	nCover, nCoverOK, nCoverInc := 0, 0, 0
@@ -216,6 +217,8 @@ func cmdCheck(args []string) {
 			}
 			if r.OK {
 				canaryOK[id] = true
+			} else if r.R.Status != "unsat" {
+				canaryUndecided[id] = true
 			}
 		case r.O.Cover:
 			nCover++
@@ -274,6 +277,9 @@ func cmdCheck(args []string) {
 	for _, f := range canaryOrder {
 		if canaryOK[f.ID] {
 			known = append(known, fmt.Sprintf("KNOWN-FINDING: property=%s %s %s [%s]", *prop, f.ID, f.What, f.Input))
+		} else if canaryUndecided[f.ID] {
+			// the obligation is proved outside the region; whether it still fails inside was not decided in time
+			known = append(known, fmt.Sprintf("KNOWN-FINDING: property=%s %s %s [%s] (region excluded from the proof; its canary query was not decided within the time limit)", *prop, f.ID, f.What, f.Input))
 		} else {
 			lines = append(lines, fmt.Sprintf("NOTE: known finding %s no longer reproduces (no obligation fails inside its region): entry is stale", f.ID))
 		}
@@ -318,7 +324,7 @@ func cmdCheck(args []string) {
 			"warnings":                  dedup(warnings),
 			"per_obligation":            evs,
 			"samples":                   samples,
-			"back_ends":                 []string{"z3 5.1.0 (z3-new)", "cvc5 1.0.x", "z3 4.8.12"},
+			"back_ends":                 []string{"z3 5.1.0 (z3-new)", "cvc5 1.0.x", "z3 4.8.12", "cvc5 1.0.x --enum-inst"},
 			"integers":                  "Go machine integers as SMT bit-vectors (wrap-around, truncating conversions, signed/unsigned comparison exact)",
 		},
 		"assumptions": assumptionsText(assumed, abstracted),
@@ -384,7 +390,7 @@ func trustedBase(assumed, abstracted map[string]int) []string {
 	tb := []string{
 		"govc: the VC generator of /verif/govc (SSA -> SMT-LIB translation, memory model, loop cutting)",
 		"golang.org/x/tools/go/ssa v0.29.0 (SSA construction faithful to the Go spec)",
-		"SMT solvers z3 5.1.0, cvc5 1.0, z3 4.8.12 (first definitive answer in quick; all must agree in thorough)",
+		"SMT solvers z3 5.1.0, cvc5 1.0 (default and --enum-inst), z3 4.8.12 (first definitive answer in quick; all must agree in thorough)",
 		"spec functions in /repo/**/verif_contracts.go written from the Intel SDM / PE-COFF specification",
 	}
 	for _, k := range keysOf(assumed) {
